@@ -67,17 +67,26 @@ impl CoseSignature {
     }
 }
 
-impl AsCborValue for CoseSignature {
+impl AsCborValue for CoseSignature {«
+    open spec fn dec_rel(value: Value, r: Result<Self>) -> bool {
+        (r is Ok <==> sig_ok(value, 0)) && (r matches Ok(s) ==> sig_res(value, 0, s))
+    }
+    open spec fn enc_rel(self, r: Result<Value>) -> bool {
+        (r is Ok <==> sig_encodable(self)) && (r matches Ok(v) ==> vv(v) == sig_cv(self))
+    }»
     fn from_cbor_value(value: Value) -> Result<Self> {
         Self::from_cbor_value_nested(value, 0)
     }
 
-    fn to_cbor_value(self) -> Result<Value> {
-        Ok(Value::Array(vec![
+    fn to_cbor_value(self) -> Result<Value> {«
+        broadcast use crate::vprelude::axiom_question_mark_uses_from;»
+        «let r = »Ok(Value::Array(vec![
             self.protected.cbor_bstr()?,
             self.unprotected.to_cbor_value()?,
             Value::Bytes(self.signature),
-        ]))
+        ]))«;
+        proof { let v = r->Ok_0; lemma_vv_value_array(v); assert(vv_seq(arr_of(v)) =~= sig_cv(self)->Array_0); }
+        r»
     }
 }
 
@@ -148,15 +157,34 @@ impl crate::TaggedCborSerializable for CoseSign {
     #[verifier::external_body] const TAG: u64 = iana::CborTag::CoseSign as u64;
 }
 
-impl AsCborValue for CoseSign {
-    fn from_cbor_value(value: Value) -> Result<Self> {
+«pub open spec fn sigs_ok(v: Value) -> bool { v is Array && forall |j: int| 0 <= j < arr_of(v).len() ==> sig_ok(#[trigger] arr_of(v)[j], 0) }
+pub open spec fn sigs_res(v: Value, s: Seq<CoseSignature>) -> bool { arr_of(v).len() == s.len() && forall |j: int| 0 <= j < s.len() ==> sig_res(#[trigger] arr_of(v)[j], 0, s[j]) }
+pub open spec fn sigs_cv(s: Seq<CoseSignature>) -> CV { CV::Array(Seq::new(s.len(), |j: int| sig_cv(s[j]))) }
+pub open spec fn sigs_encodable(s: Seq<CoseSignature>) -> bool { forall |j: int| 0 <= j < s.len() ==> sig_encodable(#[trigger] s[j]) }
+pub open spec fn sign_ok(v: Value) -> bool {
+    v is Array && arr_of(v).len() == 4 && prot_ok(arr_of(v)[0], 0) && hdr_ok(arr_of(v)[1], 0) && is_bytes_or_null(arr_of(v)[2]) && sigs_ok(arr_of(v)[3])
+}
+pub open spec fn sign_res(v: Value, x: CoseSign) -> bool {
+    prot_res(arr_of(v)[0], 0, x.protected) && hdr_res(arr_of(v)[1], 0, x.unprotected) && payload_res(arr_of(v)[2], x.payload) && sigs_res(arr_of(v)[3], x.signatures@)
+}
+pub open spec fn sign_cv(x: CoseSign) -> CV {
+    CV::Array(seq![CV::Bytes(prot_slot(x.protected)), hdr_cv(x.unprotected), opt_bytes_cv(x.payload), sigs_cv(x.signatures@)])
+}
+pub open spec fn sign_encodable(x: CoseSign) -> bool { prot_encodable(x.protected) && hdr_encodable(x.unprotected) && sigs_encodable(x.signatures@) }
+»
+impl AsCborValue for CoseSign {«
+    open spec fn dec_rel(value: Value, r: Result<Self>) -> bool { (r is Ok <==> sign_ok(value)) && (r matches Ok(x) ==> sign_res(value, x)) }
+    open spec fn enc_rel(self, r: Result<Value>) -> bool { (r is Ok <==> sign_encodable(self)) && (r matches Ok(v) ==> vv(v) == sign_cv(self)) }»
+    fn from_cbor_value(value: Value) -> Result<Self> {«
+        broadcast use crate::vprelude::axiom_question_mark_uses_from;»
         let mut a = value.try_as_array()?;
         if a.len() != 4 {
             return Err(CoseError::UnexpectedItem("array", "array with 4 items"));
         }
 
         // Remove array elements in reverse order to avoid shifts.
-        let signatures = a.remove(3).try_as_array_then_convert(|v| {
+        let signatures = a.remove(3).try_as_array_then_convert(|v«: Value»|« -> (r: Result<CoseSignature>)
+            ensures (r is Ok <==> sig_ok(v, 0)) && (r matches Ok(s) ==> sig_res(v, 0, s))» {
             CoseSignature::from_cbor_value(v)
                 .map_err(|_e| CoseError::UnexpectedItem("non-signature", "map for COSE_Signature"))
         })?;
@@ -173,8 +201,11 @@ impl AsCborValue for CoseSign {
         })
     }
 
-    fn to_cbor_value(self) -> Result<Value> {
-        Ok(Value::Array(vec![
+    fn to_cbor_value(self) -> Result<Value> {«
+        broadcast use crate::vprelude::axiom_question_mark_uses_from;
+        broadcast use crate::util::axiom_iter_enc_ok_vec;
+        broadcast use crate::util::axiom_iter_enc_err_vec;»
+        «let r = »Ok(Value::Array(vec![
             self.protected.cbor_bstr()?,
             self.unprotected.to_cbor_value()?,
             match self.payload {
@@ -182,7 +213,14 @@ impl AsCborValue for CoseSign {
                 None => Value::Null,
             },
             to_cbor_array(self.signatures)?,
-        ]))
+        ]))«;
+        proof {
+            let v = r->Ok_0; lemma_vv_value_array(v);
+            let sv = arr_of(v)[3]; lemma_vv_value_array(sv);
+            assert(vv_seq(arr_of(sv)) =~= sigs_cv(self.signatures@)->Array_0);
+            assert(vv_seq(arr_of(v)) =~= sign_cv(self)->Array_0);
+        }
+        r»
     }
 }
 
@@ -436,21 +474,20 @@ impl crate::CborSerializable for CoseSign1 {}
 impl crate::TaggedCborSerializable for CoseSign1 {
     #[verifier::external_body] const TAG: u64 = iana::CborTag::CoseSign1 as u64;
 }«
-
-pub open spec fn sign1_wf(a: Seq<Value>) -> bool {
-    a.len() == 4 && crate::header::prot_ok(a[0], 0) && crate::header::hdr_ok(a[1], 0) && (a[2] is Bytes || a[2] is Null) && a[3] is Bytes
-}»
+pub open spec fn sign1_ok(v: Value) -> bool {
+    v is Array && arr_of(v).len() == 4 && prot_ok(arr_of(v)[0], 0) && hdr_ok(arr_of(v)[1], 0) && is_bytes_or_null(arr_of(v)[2]) && arr_of(v)[3] is Bytes
+}
+pub open spec fn sign1_res(v: Value, x: CoseSign1) -> bool {
+    prot_res(arr_of(v)[0], 0, x.protected) && hdr_res(arr_of(v)[1], 0, x.unprotected) && payload_res(arr_of(v)[2], x.payload) && arr_of(v)[3] == Value::Bytes(x.signature)
+}
+pub open spec fn sign1_cv(x: CoseSign1) -> CV {
+    CV::Array(seq![CV::Bytes(prot_slot(x.protected)), hdr_cv(x.unprotected), opt_bytes_cv(x.payload), CV::Bytes(x.signature@)])
+}
+pub open spec fn sign1_encodable(x: CoseSign1) -> bool { prot_encodable(x.protected) && hdr_encodable(x.unprotected) }»
 
 impl AsCborValue for CoseSign1 {«
-    open spec fn dec_rel(value: Value, r: Result<Self>) -> bool {
-        (!(value is Array) ==> r is Err)
-        && (value matches Value::Array(a) ==> (r is Ok <==> sign1_wf(a@)))
-        && (value matches Value::Array(a) ==> (r matches Ok(x) ==> (
-               a@[0] == Value::Bytes(x.protected.original_data->0) && x.protected.original_data is Some
-            && (a@[2] matches Value::Bytes(b) ==> x.payload == Some(b))
-            && (a@[2] is Null ==> x.payload is None)
-            && a@[3] == Value::Bytes(x.signature))))
-    }»
+    open spec fn dec_rel(value: Value, r: Result<Self>) -> bool { (r is Ok <==> sign1_ok(value)) && (r matches Ok(x) ==> sign1_res(value, x)) }
+    open spec fn enc_rel(self, r: Result<Value>) -> bool { (r is Ok <==> sign1_encodable(self)) && (r matches Ok(v) ==> vv(v) == sign1_cv(self)) }»
     fn from_cbor_value(value: Value) -> Result<Self> {«
         broadcast use crate::vprelude::axiom_question_mark_uses_from;»
         let mut a = value.try_as_array()?;
@@ -471,8 +508,9 @@ impl AsCborValue for CoseSign1 {«
         })
     }
 
-    fn to_cbor_value(self) -> Result<Value> {
-        Ok(Value::Array(vec![
+    fn to_cbor_value(self) -> Result<Value> {«
+        broadcast use crate::vprelude::axiom_question_mark_uses_from;»
+        «let r = »Ok(Value::Array(vec![
             self.protected.cbor_bstr()?,
             self.unprotected.to_cbor_value()?,
             match self.payload {
@@ -480,7 +518,9 @@ impl AsCborValue for CoseSign1 {«
                 None => Value::Null,
             },
             Value::Bytes(self.signature),
-        ]))
+        ]))«;
+        proof { let v = r->Ok_0; lemma_vv_value_array(v); assert(vv_seq(arr_of(v)) =~= sign1_cv(self)->Array_0); }
+        r»
     }
 }«
 
@@ -683,7 +723,7 @@ impl CoseSign1Builder {
 }«
 
 use crate::vprelude::*;
-use crate::header::{prot_slot, prot_encodable};
+use crate::header::{prot_slot, prot_encodable, prot_ok, prot_res, hdr_ok, hdr_res, hdr_cv, hdr_encodable, sig_ok, sig_res, sig_cv, sig_encodable};
 pub open spec fn sig_ctx_text(c: SignatureContext) -> Seq<char> {
     match c { SignatureContext::CoseSignature => "Signature"@, SignatureContext::CoseSign1 => "Signature1"@, SignatureContext::CounterSignature => "CounterSignature"@ }
 }
